@@ -35,6 +35,8 @@
 (*                       fires (window 1 starts with the batch, every      *)
 (*                       accounted success starts the next one)            *)
 (*   Cancel(b)  HardFire(b)  Stop (res ok | hang)                          *)
+(*   IdleElapsed(b,g)    the idle window g of batch b has fully elapsed    *)
+(*                       (logged at quiescence, under virtual time)        *)
 (***************************************************************************)
 EXTENDS Integers, Sequences, FiniteSets
 
@@ -150,6 +152,13 @@ Viol(a, o, act, a2, o2) ==
   \cup (IF /\ act.op = "Result" /\ act.res # "blocked" /\ act.b \in 1..NB(a2) /\ act.b \in 1..nb
            /\ a2.opts[act.b].hard = 1 /\ a2.hardx[act.b] = 1 /\ open(act.b)
         THEN {"HardDeadlineEndsBatch"} ELSE {})
+  \* "... otherwise a single error (... idle timeout ...)": the idle window the
+  \* batch is in has fully elapsed, everything has come to rest with the
+  \* dispatcher waiting in its main select - the batch must have its result
+  \* (executions under virtual time; IdleElapsed is logged at quiescence)
+  \cup (IF /\ act.op = "IdleElapsed" /\ o2.disp = 0 /\ act.b \in 1..NB(a2) /\ act.b \in 1..nb
+           /\ a2.opts[act.b].prog = 1 /\ act.g = a2.win[act.b] /\ open(act.b)
+        THEN {"IdleTimeoutEndsBatch"} ELSE {})
   \cup (IF act.op = "Query" /\ act.res = "blocked" THEN {"QueryReturns"} ELSE {})
   \cup (IF act.op = "Result" /\ act.res = "blocked" THEN {"ResultAccepted"} ELSE {})
   \cup (IF act.op = "Stop" /\ act.res # "ok" THEN {"StopReturns"} ELSE {})
